@@ -19,7 +19,8 @@
 -/
 namespace GoImap.ClientConc
 
-inductive Kind | noop | fetch | login | append | search | enable | idle
+/-- `login2`: LOGIN whose two arguments both need a synchronising literal -/
+inductive Kind | noop | fetch | login | append | search | enable | idle | login2
   deriving DecidableEq, Repr, Inhabited
 
 /-- class of the value delivered on `cmd.done`: nil, *imap.Error (NO/BAD), any other error -/
@@ -34,7 +35,7 @@ inductive Reply | ok | no
 inductive ContSt | unused | waiting | done | cancelled | refused
   deriving DecidableEq, Repr
 
-inductive WireKind | line | head | tail | done
+inductive WireKind | line | head | head2 | tail | done
   deriving DecidableEq, Repr
 
 inductive FlushMode | final | lit | idle
@@ -67,21 +68,27 @@ structure Variant where
   enabledGuarded : Bool
   /-- F26 repaired (2/2): closeWithError cancels every continuation request still queued -/
   cancelOnClose : Bool
+  /-- 0d4c77c: a continuation request registered for an already completed command is cancelled at
+      once instead of being queued -/
+  cancelIfCompleted : Bool
   deriving DecidableEq, Repr
 
 /-- the repaired tree -/
-def fixed : Variant := ⟨true, true, true, true⟩
+def fixed : Variant := ⟨true, true, true, true, true⟩
 namespace Legacy
 /-- beginCommand registered the command before initialising it -/
-def f21 : Variant := ⟨false, true, true, true⟩
+def f21 : Variant := ⟨false, true, true, true, true⟩
 /-- idle() registered its continuation request before taking encMutex -/
-def f26idle : Variant := ⟨true, false, true, false⟩
+def f26idle : Variant := ⟨true, false, true, false, false⟩
 /-- search() read c.enabled without the mutex -/
-def f26enabled : Variant := ⟨true, true, false, true⟩
+def f26enabled : Variant := ⟨true, true, false, true, true⟩
 /-- the obvious repair of F26 alone (`beginCommand; registerContReq; flush`): a command completed
     by closeWithError between the two calls leaves its continuation request behind and idle()
     waits for it forever -/
-def f26reorderOnly : Variant := ⟨true, true, true, false⟩
+def f26reorderOnly : Variant := ⟨true, true, true, false, false⟩
+/-- a continuation request registered after its command had completed (second literal of a command
+    whose first literal was refused) stayed in the queue and took the next command's "+" -/
+def lateContReq : Variant := ⟨true, true, true, true, false⟩
 end Legacy
 
 inductive Instr
@@ -157,6 +164,12 @@ structure CmdRec where
   /-- writing DONE failed: IdleCommand.Wait returns that error without waiting for the command -/
   idleErr : Bool := false
   idleErrReturned : Bool := false
+  /-- `Command.completed`: set by completeCommand under the mutex; a continuation request
+      registered afterwards is cancelled at once instead of being queued -/
+  completed : Bool := false
+  /-- the sticky error of this command's encoder: 0 none, 1 an `*imap.Error` (a literal was
+      refused with NO/BAD), 2 any other error. Once set, nothing more is written for the command -/
+  encErr : Nat := 0
   deriving Repr
 
 -- thread ids
@@ -225,6 +238,7 @@ def complete (kind : Kind) (c : Nat) (r : Res) : List Instr :=
   [.loadDone c r, .closeDone c, .cancelConts c r] ++
   (match kind, r with
    | .login, .ok => [.setState .auth]
+   | .login2, .ok => [.setState .auth]
    | .fetch, _ => [.closeMsgs c]
    | _, _ => [])
 
@@ -263,9 +277,18 @@ def lastKind (w : List (Nat × WireKind)) (c : Nat) : Option WireKind :=
 
 def unanswered (s : St) : List Nat := (onWire s.wire).filter fun c => !s.replied.contains c
 
-/-- commands whose last flush was a literal head / IDLE line and that were not yet continued -/
+def isHeadKind : WireKind → Bool
+  | .head | .head2 => true
+  | _ => false
+
+def headCount (w : List (Nat × WireKind)) (c : Nat) : Nat :=
+  (w.filter fun e => e.1 = c && isHeadKind e.2).length
+
+/-- commands whose last flush was a literal head / IDLE line that has not been continued yet -/
 def openHeads (s : St) : List Nat :=
-  (unanswered s).filter fun c => lastKind s.wire c == some .head && !s.contGiven.contains c
+  (unanswered s).filter fun c =>
+    (match lastKind s.wire c with | some k => isHeadKind k | none => false) &&
+    decide (s.contGiven.count c < headCount s.wire c)
 
 def deliver (s : St) (l : Line) : St :=
   if s.connClosed then s else { s with inbox := s.inbox ++ [l] }
@@ -276,7 +299,7 @@ def execSrv (s : St) (t : Nat) (rest : List Instr) : SrvAct → St
     match (if oldest then cands.head? else cands.getLast?) with
     | none => s
     | some c =>
-      let caps := decide ((s.cmd c).kind = .login) && decide (rep = .ok)
+      let caps := (decide ((s.cmd c).kind = .login) || decide ((s.cmd c).kind = .login2)) && decide (rep = .ok)
       ({ deliver s (.tagged (s.cmd c).ltag rep caps) with replied := s.replied ++ [c] }).setProg t rest
   | .cont =>
     match (openHeads s).head? with
@@ -288,7 +311,19 @@ def execSrv (s : St) (t : Nat) (rest : List Instr) : SrvAct → St
   | .close => ({ s with srvClosed := true }).setProg t rest
   | .rerr => ({ s with rerr := true }).setProg t rest
 
-/-- execute instruction `i` of thread `t` whose remaining program is `rest` -/
+/-- thread `t` owns the encoder lock (for an IDLE in progress the owner is its supervisor) -/
+def St.holds (s : St) (t : Nat) : Bool := decide (s.enc = some t)
+
+/-- threads that can have a program: the reader, server, closer, observer, up to six submitters
+    and their IDLE supervisors -/
+def maxThreads : Nat := 16
+
+/-- execute instruction `i` of thread `t` whose remaining program is `rest`.
+
+    The instructions of a command submission between `encMutex.Lock()` and the matching `Unlock()`
+    are sequential code of ONE goroutine that holds the lock; the model says so explicitly: they are
+    executed only by the thread recorded as the lock's owner (never violated by scenario programs;
+    a violation would make the model stall where the code moves, which the tie would report). -/
 def exec (v : Variant) (s : St) (t : Nat) (i : Instr) (rest : List Instr) : St :=
   match i with
   | .encLock =>
@@ -298,41 +333,60 @@ def exec (v : Variant) (s : St) (t : Nat) (i : Instr) (rest : List Instr) : St :
   | .register c =>
     -- every submission creates a fresh Go command object; the model names objects by their id
     -- and therefore refuses to register an id twice (never the case for scenario programs)
-    if (s.cmd c).registered then s else
+    if !s.holds t || (s.cmd c).registered then s else
     let tag := s.cmdTag + 1
     (({ s with cmdTag := tag, pending := s.pending ++ [c] }).updCmd c fun r =>
       { r with registered := true, ltag := tag,
                tag := if v.initFirst then tag else r.tag,
                chanInit := v.initFirst || r.chanInit }).setProg t rest
   | .postReg c =>
+    if !s.holds t then s else
     (if v.initFirst then s
      else s.updCmd c fun r => { r with tag := r.ltag, chanInit := true }).setProg t rest
   | .flush c w m =>
-    if s.writable then
-      let s1 := { s with wire := s.wire ++ [(c, w)] }
-      let s2 := if m = .final then { s1 with enc := none } else s1
-      s2.setProg t rest
-    else
-      match m with
-      | .final => s.closeConn.setProg t (.closeSwap :: .encUnlock :: rest)
-      | .lit => s.closeConn.setProg t (.closeSwap :: .encUnlock :: dropThrough isFinalFlush rest)
-      | .idle => s.closeConn.setProg t (.closeSwap :: rest)
+    if !s.holds t then s else
+    let e := (s.cmd c).encErr
+    match m with
+    | .lit =>
+      -- Encoder.Literal: header + CRLF + Flush; nothing at all once the encoder has failed
+      if e ≠ 0 then s.setProg t rest
+      else if s.writable then ({ s with wire := s.wire ++ [(c, w)] }).setProg t rest
+      else (s.updCmd c fun r => { r with encErr := 2 }).setProg t rest
+    | .final =>
+      -- commandEncoder.end: flush() tolerates an *imap.Error, any other error closes the client
+      -- (an *imap.Error can only be the command's own tagged NO/BAD: it has left pendingCmds)
+      if e = 1 && !s.pending.contains c then ({ s with enc := none }).setProg t rest
+      else if e = 0 && s.writable then ({ s with wire := s.wire ++ [(c, w)], enc := none }).setProg t rest
+      else s.closeConn.setProg t (.closeSwap :: .encUnlock :: rest)
+    | .idle =>
+      if s.writable then ({ s with wire := s.wire ++ [(c, w)] }).setProg t rest
+      else s.closeConn.setProg t (.closeSwap :: rest)
   | .regCont c =>
+    if v.idleUnderEnc && !s.holds t then s else
     let k := s.nextCont
-    ((({ s with nextCont := k + 1, contReqs := s.contReqs ++ [(k, c)] }).setCont k .waiting).updCmd c
-      fun r => { r with cont := k }).setProg t rest
-  | .litCaps => s.setProg t rest
+    if v.cancelIfCompleted && (s.cmd c).completed then
+      -- the command is over already: cancelled at once, never queued
+      ((({ s with nextCont := k + 1 }).setCont k .cancelled).updCmd c fun r => { r with cont := k }).setProg t rest
+    else
+      ((({ s with nextCont := k + 1, contReqs := s.contReqs ++ [(k, c)] }).setCont k .waiting).updCmd c
+        fun r => { r with cont := k }).setProg t rest
+  | .litCaps => if !s.holds t then s else s.setProg t rest
   | .contWait c idle =>
+    if !s.holds t then s else
+    if !idle && (s.cmd c).encErr ≠ 0 then s.setProg t rest   -- Encoder.Literal returned before Wait
+    else
     match s.contSt (s.cmd c).cont with
     | .done => s.setProg t rest
     | .cancelled =>
       if idle then s.setProg t (.encUnlock :: dropThrough isOpEnd rest)
-      else s.closeConn.setProg t (.closeSwap :: .encUnlock :: dropThrough isFinalFlush rest)
+      else (s.updCmd c fun r => { r with encErr := 2 }).setProg t rest
     | .refused =>
-      -- the server answered the literal header / IDLE with NO or BAD: the command is over, nothing
-      -- more is written, the connection stays usable (flush tolerates an *imap.Error)
+      -- the server answered the literal header / IDLE with NO or BAD: the command is over
       if idle then s.setProg t (.encUnlock :: dropThrough isOpEnd rest)
-      else s.setProg t (.encUnlock :: dropThrough isFinalFlush rest)
+      else
+        -- the error handed over by Cancel is the command's own completion error (an *imap.Error):
+        -- the command has been completed (`completed` is set in the same critical section)
+        (s.updCmd c fun r => { r with encErr := if r.completed then 1 else 2 }).setProg t rest
     | _ => s
   | .wait c =>
     let r := s.cmd c
@@ -346,13 +400,16 @@ def exec (v : Variant) (s : St) (t : Nat) (i : Instr) (rest : List Instr) : St :
   | .searchEnabled => s.setProg t rest
   | .opEnd => s.setProg t rest
   | .idleGo c =>
-    -- the supervisor goroutine of this IDLE (a previous one of the same submitter has ended: its
-    -- IdleCommand.Close waited for it)
-    (s.setProg t rest).setProg (idleTid t) (s.prog (idleTid t) ++ [.idleRunSel c, .idleDoneW c, .idleRunClose c])
+    -- the supervisor goroutine of this IDLE takes over the encoder lock (a previous supervisor of
+    -- the same submitter has ended: its IdleCommand.Close waited for it)
+    if !s.holds t || !(s.prog (idleTid t)).isEmpty || decide (maxThreads ≤ idleTid t) then s else
+    (({ s with enc := some (idleTid t) }).setProg t rest).setProg (idleTid t)
+      [.idleRunSel c, .idleDoneW c, .idleRunClose c]
   | .idleStop c => (s.updCmd c fun r => { r with idleStopped := true }).setProg t rest
   | .idleJoin c => if (s.cmd c).idleDone then s.setProg t rest else s
   | .idleRunSel c => if (s.cmd c).idleStopped then s.setProg t rest else s
   | .idleDoneW c =>
+    if !s.holds t then s else
     let s1 := if s.writable then { s with wire := s.wire ++ [(c, .done)] }
               else s.updCmd c fun r => { r with idleErr := true }
     ({ s1 with enc := none }).setProg t rest
@@ -387,12 +444,13 @@ def exec (v : Variant) (s : St) (t : Nat) (i : Instr) (rest : List Instr) : St :
   | .cancelConts c r =>
     let gone := s.contReqs.filter (·.2 = c)
     let s1 := { s with contReqs := s.contReqs.filter (·.2 ≠ c) }
-    (gone.foldl (fun acc kc => acc.setCont kc.1 (if r = .no then .refused else .cancelled)) s1).setProg t rest
+    ((gone.foldl (fun acc kc => acc.setCont kc.1 (if r = .no then .refused else .cancelled)) s1).updCmd c
+      fun rc => { rc with completed := true }).setProg t rest
   | .setState st => ({ s with state := st }).setProg t rest
   | .closeMsgs c =>
     if (s.cmd c).streamClosed ≥ 1 then { s with crashed := true }
     else (s.updCmd c fun rc => { rc with streamClosed := rc.streamClosed + 1 }).setProg t rest
-  | .encUnlock => ({ s with enc := none }).setProg t rest
+  | .encUnlock => if !s.holds t then s else ({ s with enc := none }).setProg t rest
   | .closeBegin =>
     ({ s with closerAlready := s.closedFlag, closedFlag := true }).closeConn.setProg t rest
   | .closeJoin =>
@@ -446,7 +504,8 @@ def skipCaps (s : St) (t : Nat) : St :=
     leaves the state unchanged -/
 def step (v : Variant) (s : St) (t : Nat) : St :=
   if s.crashed then s else
-  if t ≥ 100 then skipCaps s (t - 100) else
+  if t ≥ 100 then (if t - 100 < maxThreads then skipCaps s (t - 100) else s) else
+  if t ≥ maxThreads then s else
   match s.prog t with
   | [] => s
   | i :: rest => exec v s t i rest
@@ -500,6 +559,13 @@ def label (v : Variant) : Instr → Option String
   | .rdExit => some "Client.read:close#1"
   | .srv _ => none
 
+/-- the label at which thread `t` actually parks for `i` in state `s`: the wait for a continuation
+    request is not reached once the command's encoder has failed (Encoder.Literal returns first) -/
+def labelAt (v : Variant) (s : St) (i : Instr) : Option String :=
+  match i with
+  | .contWait c false => if (s.cmd c).encErr ≠ 0 then none else label v i
+  | _ => label v i
+
 /-- every label at which the harness parks goroutines (the label universe of the repaired model) -/
 def parkLabels : List String :=
   ["Client.beginCommand:encMutex.Lock#1", "Client.beginCommand:mutex.Lock#1",
@@ -538,6 +604,9 @@ def opProg (v : Variant) (k : Kind) (c : Nat) : List Instr :=
   | .fetch => begin_ ++ [.flush c .line .final, .fetchNext c, .wait c, .opEnd]
   | .search => [.capsSel, .capsLock false, .searchEnabled] ++ begin_ ++ [.flush c .line .final, .wait c, .opEnd]
   | .login => begin_ ++ [.regCont c, .flush c .head .lit, .contWait c false, .flush c .tail .final, .wait c, .opEnd]
+  | .login2 =>
+    begin_ ++ [.regCont c, .flush c .head .lit, .contWait c false, .regCont c, .flush c .head2 .lit,
+               .contWait c false, .flush c .tail .final, .wait c, .opEnd]
   | .append => begin_ ++ [.litCaps, .regCont c, .flush c .head .lit, .contWait c false, .flush c .tail .final, .wait c, .opEnd]
   | .idle =>
     (if v.idleUnderEnc then begin_ ++ [.regCont c] else .regCont c :: begin_) ++
@@ -604,17 +673,24 @@ def quiescent (sc : Scenario) (s : St) : Bool :=
 def enabled (v : Variant) (s : St) (t : Nat) : Bool :=
   if s.crashed then false else
   if t ≥ 100 then
-    (match s.prog (t - 100) with
+    (decide (t - 100 < maxThreads) &&
+     match s.prog (t - 100) with
      | .capsSel :: .capsLock _ :: _ => s.decClosed
      | _ => false) else
+  if t ≥ maxThreads then false else
   match s.prog t with
   | [] => false
-  | i :: rest =>
+  | i :: _ =>
     match i with
     | .encLock => s.enc.isNone
-    | .register c => !(s.cmd c).registered
-    | .contWait c _ =>
-      s.contSt (s.cmd c).cont == .done || s.contSt (s.cmd c).cont == .cancelled || s.contSt (s.cmd c).cont == .refused
+    | .register c => s.holds t && !(s.cmd c).registered
+    | .postReg _ | .flush .. | .litCaps | .encUnlock | .idleDoneW _ => s.holds t
+    | .regCont _ => !v.idleUnderEnc || s.holds t
+    | .contWait c idle =>
+      s.holds t &&
+      ((!idle && decide ((s.cmd c).encErr ≠ 0)) ||
+       s.contSt (s.cmd c).cont == .done || s.contSt (s.cmd c).cont == .cancelled || s.contSt (s.cmd c).cont == .refused)
+    | .idleGo _ => s.holds t && (s.prog (idleTid t)).isEmpty && !decide (maxThreads ≤ idleTid t)
     | .wait c => let r := s.cmd c; r.chanInit && ((decide (r.sent ≥ 1) && !r.waited) || decide (r.closed ≥ 1))
     | .fetchNext c => decide ((s.cmd c).streamClosed ≥ 1)
     | .idleJoin c | .idleWait c => (s.cmd c).idleDone
@@ -628,8 +704,7 @@ def enabled (v : Variant) (s : St) (t : Nat) : Bool :=
        | .reply _ _ => !(unanswered s).isEmpty
        | .cont => !(openHeads s).isEmpty
        | _ => true)
-    | _ => let _ := v; let _ := rest; true
-
+    | _ => true
 
 /-! ### The field-access table (lockset discipline)
 
